@@ -133,11 +133,11 @@ var dequeModel = porcupine.Model{
 func runC12(w *mon.Worker) {
 	mon.SetMaxSleep(100 * time.Microsecond)
 	mon.SetProb(0.35, verifhook.LifoPushCAS, verifhook.LifoPopCAS)
-	nl := w.Share(w.Scale(2400, 60000))
+	nl := w.Share(w.Scale(6000, 120000))
 	for i := 0; i < nl; i++ {
 		w.Case("lifo-history", nil, lifoHistoryCase)
 	}
-	for i := 0; i < w.Share(w.Scale(2400, 60000)); i++ {
+	for i := 0; i < w.Share(w.Scale(6000, 120000)); i++ {
 		w.Case("deque-history", nil, dequeHistoryCase)
 	}
 	for i := 0; i < w.Share(w.Scale(64, 1500)); i++ {
